@@ -40,6 +40,8 @@ def correspondence(rep, ctx, ncases=None):
         "included by the deep-chain stratum. distinct = distinct (class, inventory, time)")
     cases = []
     # long chains at times short against the chain head (deep progeny many orders of magnitude below the parent): HP class
+    # the witness of the open finding F6' always runs, so that the finding stays observable
+    cases.append(("hp", {"Mn-57": 20.176420064165978, "Bk-247": 1.7982780957370433e+23}, "num", 2.2242615233878635e-29, "y"))
     for parent, t_, tu_ in (("Th-232", 1.0, "s"), ("U-238", 1.0, "h")) + ((("Np-237", 10.0, "s"), ("U-235", 1.0, "m")) if thorough else ()):
         cases.append(("hp", {parent: 1.0}, "num", t_, tu_))
     for k in range(ncases + nhp):
@@ -106,6 +108,7 @@ def correspondence(rep, ctx, ncases=None):
             continue
         want = sorted(view.names[i] for i in view.descendants(list(n0)) if view.rate[i] != 0)
         msg = None
+        f6_class = False
         if sorted(cum) != want:
             msg = f"keys {sorted(cum)[:5]}… differ from the radioactive closure {want[:5]}…"
         else:
@@ -124,6 +127,8 @@ def correspondence(rep, ctx, ncases=None):
                         within(F(v), lo, hi, REL * mag)
                 if not okv:
                     msg = f"{nm}: reported {v!r}, exact integral of activity in [{float(lo)!r}, {float(hi)!r}]"
+                    # the class of the open finding F6 (320 digits used up): exact value below 1e-290 of the ancestors' atoms
+                    f6_class = cls == "hp" and max(abs(lo), abs(hi)) < Fraction(1, 10**290) * anc
                     break
         if msg is None and cls == "float":
             # balance from the real outputs
@@ -140,11 +145,14 @@ def correspondence(rep, ctx, ncases=None):
                     msg = f"atom balance of {nm} does not close: residual {float(res):.3e} (total atoms {float(total):.3e})"
                     break
         if msg:
-            bad += 1
-            if bad <= 3:
+            key_ = "F6-hp-digits-cum" if (cls == "hp" and f6_class) else None
+            if key_ is None:
+                bad += 1
+            if bad <= 3 or key_:
                 rep.violation("failing-input", f"{'Inventory' if cls == 'float' else 'InventoryHP'}({contents!r}, {unit!r})"
                               f".cumulative_decays({t!r}, {tu!r}): {msg}",
-                              {"call": "cumulative_decays", "cls": cls, "contents": contents, "unit": unit, "t": t, "tu": tu}, True)
+                              {"call": "cumulative_decays", "cls": cls, "contents": contents, "unit": unit, "t": t, "tu": tu}, True,
+                              match_key=key_)
     # t = 0 and the key set, both classes, in several units: exactly the radioactive chain members, every value 0
     for k_ in range(12 if thorough else 5):
         contents, unit = gen.inventory(max_n=3)
